@@ -102,16 +102,22 @@ def _solve_one(args):
     t0 = time.time()
     asserts = z3.parse_smt2_string(smt2)
     hyps, goal = list(asserts[:-1]), asserts[-1].arg(0)
-    base_hyps = [h for i, h in enumerate(hyps) if i not in set(derived)]
-    eq_goal = poly and _collect_eqs(goal) is not None
+    # A => B as goal: A joins the hypotheses (for the polynomial back end)
+    phyps, pgoal = list(hyps), goal
+    while z3.is_implies(pgoal):
+        ante = pgoal.arg(0)
+        phyps += list(ante.children()) if z3.is_and(ante) else [ante]
+        pgoal = pgoal.arg(1)
+    base_hyps = [h for i, h in enumerate(phyps) if i not in set(derived)]
+    eq_goal = poly and _collect_eqs(pgoal) is not None
     if eq_goal:
-        ok, how = _with_alarm(60, poly_discharge, hyps, goal, False)
+        ok, how = _with_alarm(60, poly_discharge, phyps, pgoal, False)
         if ok:
             return "discharged", "poly", time.time() - t0, how
-        if _nonlinear(goal):
-            ok, how = _with_alarm(30, poly_discharge, base_hyps, goal, True)
-            if not ok and len(base_hyps) != len(hyps):
-                ok, how = _with_alarm(30, poly_discharge, hyps, goal, True)
+        if _nonlinear(pgoal):
+            ok, how = _with_alarm(30, poly_discharge, base_hyps, pgoal, True)
+            if not ok and len(base_hyps) != len(phyps):
+                ok, how = _with_alarm(30, poly_discharge, phyps, pgoal, True)
             if ok:
                 return "discharged", "groebner", time.time() - t0, how
             eq_goal = False  # already tried
@@ -127,7 +133,7 @@ def _solve_one(args):
         if r2 == "sat":
             return "refuted", "cvc5", time.time() - t0, "cvc5 sat (z3: %s)" % info
     if eq_goal:
-        ok, how = _with_alarm(40, poly_discharge, hyps, goal, True)
+        ok, how = _with_alarm(40, poly_discharge, phyps, pgoal, True)
         if ok:
             return "discharged", "groebner", time.time() - t0, how
     return "undecided", "z3", time.time() - t0, info
